@@ -418,6 +418,24 @@ theorem c40_model_is_source (s : Agg) (id : Nat) (m : Metrics) :
     = P2.Extracted.C40.countSessionBytesT s.sent s.recv s.counted
         ((lookup id s.counted).getD (0, 0)) upsert id m.sentBytes m.recvBytes := rfl
 
+/-- Shape of the repaired control flow in the current source (re-extracted on every run; a
+    missing pattern is itself a failure): the totals are written at exactly one place each
+    (inside `count_session_bytes`); `SyncFinished` stores the metrics and counts them;
+    `SessionFinished` stores its metrics and ends the session (no addition of its own);
+    `Failed` ends the session first; `handle_session_end` decrements by one (saturating),
+    clears the live flag, takes the last metrics, counts them and drops the `counted` entry —
+    the statement sequence `handleSessionEnd` / `process` transcribe. -/
+theorem c40_source_shape :
+    P2.Extracted.C40.sentAddSites = 1 ∧ P2.Extracted.C40.recvAddSites = 1 ∧
+    P2.Extracted.C40.syncFinishedArm
+      = "self.session_metrics.insert(session_id, metrics.clone()); self.count_session_bytes(session_id, &metrics);" ∧
+    P2.Extracted.C40.sessionFinishedArm
+      = "self.session_metrics.insert(session_id, metrics); self.handle_session_end(session_id);" ∧
+    P2.Extracted.C40.failedArmFirst = "let metrics = self.handle_session_end(session_id);" ∧
+    P2.Extracted.C40.sessionEndBody
+      = "self.running_sessions = self.running_sessions.saturating_sub(1); self.live_mode.remove(&session_id); let metrics = self.session_metrics.remove(&session_id).unwrap_or_default(); self.count_session_bytes(session_id, &metrics); self.counted_bytes.remove(&session_id); metrics" :=
+  ⟨rfl, rfl, rfl, rfl, rfl, rfl⟩
+
 /-! ## A decidable sufficient check for well-formedness (used for the concrete witnesses) -/
 
 def wfOrderB (tr : List Ev) : Bool :=
